@@ -21,7 +21,8 @@ C05 — the property as an executable predicate over what was OBSERVED of one ru
                     is open after `Engine.Wait` returned, and a gun that wraps an `io.Closer` is one itself
   cli               (`cli=` cases: the run goes through `cli.runEngine` / `cli.awaitPandoraTermination`) the process
                     ends with status 0 exactly when the run succeeded and no signal was acted on; before any other
-                    exit the run context was cancelled (`gs`) and `Engine.Wait` had returned (`fatal.w1`)
+                    exit the run context was cancelled (`gs`) and `Engine.Wait` had returned (`fatal.w1`), unless the
+                    user sent a second signal or the tasks outlasted the await timeout
 -/
 import Pandora.Drv.Util
 
@@ -41,8 +42,14 @@ structure PoolIn where
 structure Plan where
   pools : List PoolIn
   cancel : String
-  cli : String := ""       -- "" | run | int | term
+  cli : String := ""       -- "" | run | int | term | int2 | term2 (a second signal while `Engine.Wait` is blocked) | runT (the tasks outlast the 3 s await timeout)
   deriving Repr
+
+/-- `int2` ↦ (`int`, `2`), `runT` ↦ (`run`, `T`) -/
+def Plan.cliKind (pl : Plan) : String :=
+  if pl.cli.endsWith "2" || pl.cli.endsWith "T" then (pl.cli.dropEnd 1).toString else pl.cli
+def Plan.cliVar (pl : Plan) : String :=
+  if pl.cli.endsWith "2" then "2" else if pl.cli.endsWith "T" then "T" else ""
 
 structure PoolObs where
   main : List String
@@ -68,6 +75,7 @@ structure Obs where
   pools : List PoolObs
   cli : Option (List String) := none   -- rcv | gs | fatal.w1 | fatal.w0 | ok | hang, in order
   csig : Bool := false                 -- the process sent itself the signal before `awaitPandoraTermination` ended
+  csig2 : Bool := false                -- … and a second one, while `awaitPandoraTermination` waited for `Engine.Wait`
   blk : Option String := none          -- cases with a blocking stub: `run` | `deadline` | `-`
   deriving Repr
 
@@ -106,7 +114,7 @@ def parseObs (n : Nat) (impl : String) : Option Obs := do
   pure { res := res, canc := getS kv "canc" == "1", lat := getS kv "lat" "-", wait := getS kv "wait",
          leak := (getN? kv "leak").getD 0, eng := dashList (getS kv "eng" "-"), engc := getS kv "engc",
          sup := getS kv "sup" "-", pools := pools, cli := (lookup kv "cli").map dashList,
-         csig := getS kv "csig" == "1", blk := lookup kv "blk" }
+         csig := getS kv "csig" == "1" || getS kv "csig" == "2", csig2 := getS kv "csig" == "2", blk := lookup kv "blk" }
 
 def PoolIn.has (p : PoolIn) (name : String) (k : Nat) : Bool := p.fails.contains (name, k)
 
@@ -154,7 +162,7 @@ def gunLeakBad (pl : Plan) (o : Obs) : Option String :=
     | _, _ => none).head?
 
 /-- the process-level outcome of a run that went through `cli.awaitPandoraTermination` -/
-def cliBad (o : Obs) : Option String :=
+def cliBad (pl : Plan) (o : Obs) : Option String :=
   match o.cli with
   | none => none
   | some evs =>
@@ -166,7 +174,9 @@ def cliBad (o : Obs) : Option String :=
     else if !fatal && !evs.contains "ok" then some "outcome:neither a normal return nor an exit"
     else if fatal && !(evs.takeWhile (fun e => !e.startsWith "fatal")).contains "gs" then
       some "no-shutdown:exit without cancelling the run context first"
-    else if evs.contains "fatal.w0" then some "exit-before-wait:the process exits while Engine.Wait has not returned"
+    else if evs.contains "fatal.w0" && !(o.csig2 && evs.contains "rcv") && pl.cliVar != "T" then
+      -- (a second signal, or tasks that outlast the await timeout, are the two licences to leave without waiting)
+      some "exit-before-wait:the process exits while Engine.Wait has not returned"
     else none
 
 /-- the planned blocking calls, for the text of a verdict -/
@@ -221,7 +231,7 @@ def verdict (pl : Plan) (o : Obs) : String :=
     match gunLeakBad pl o with
     | some e => s!"fail:gun-leak:{e}"
     | none =>
-    match cliBad o with
+    match cliBad pl o with
     | some e => s!"fail:cli-{e}"
     | none =>
     if o.canc && o.lat == "mid" then "skip:inconclusive-latency"
